@@ -43,10 +43,12 @@ func runC09(c *engine.Ctx, tier string) {
 		{"C09.2a", "@P.Status.Phases.Apply == nil && @P.Status.Phases.Abort == nil && @P.Status.Phases.Commit != nil && @P.Status.Phases.Commit.State == config/v2.ProposalCommitPhase_COMMITTED"},
 		{"C09.2b", "@P.Status.Phases.Apply != nil && @P.Status.Phases.Apply.State == config/v2.ProposalApplyPhase_APPLIED"},
 		{"C09.2c", "@P.Status.Phases.Apply == nil && @P.Status.Phases.Abort != nil && @P.Status.Phases.Abort.State == config/v2.ProposalAbortPhase_ABORTED"},
+		// apply-FAILED moves the applied cursor like APPLIED does. This row was once left out as a false alarm
+		// ("the configuration watcher and the predecessor pokes wake the successor"): wrong — after a refusal
+		// Applied.Index names the FAILED proposal, which forwards nothing, and Configuration.Index need not
+		// name the waiting proposal (a rollback behind a refused change waits for ever: finding F42).
+		{"C09.2d", "@P.Status.Phases.Apply != nil && @P.Status.Phases.Apply.State == config/v2.ProposalApplyPhase_FAILED"},
 	} {
-		// apply-FAILED is deliberately not in this table: the failing pass moves Applied.Index, the
-		// configuration watcher maps that event to the proposal of Configuration.Index (the last merged
-		// one), and each waiting proposal pokes its predecessor (C09.1b), which reaches the successor.
 		c.Outcome(engine.Outcome{ID: x.id, Pkg: pkgProposalCtl, Root: "Reconciler.Reconcile", Min: 1, Consistent: true,
 			When:    base + x.when + " && @P.Status.NextIndex != 0",
 			Result0: requeueNext, Returns: "err==nil",
